@@ -375,7 +375,11 @@ func writeEvidence(e *Engine, prop, tier string, seed int, results []*JobResult,
 	vars := map[string]bool{}
 	var samples []interface{}
 	proved := map[string]int{}
+	cuts := map[string]int{}
 	for _, r := range results {
+		for k, n := range r.Cuts {
+			cuts[k] += n
+		}
 		states += r.States + int64(r.Paths)
 		transitions += r.Branches
 		obligations += int64(r.Obligations)
